@@ -110,6 +110,15 @@ def direct(ctx, entries=None, count=False):
                         ctx.fail('row %d of the batch result differs from evaluating the row alone' % i, {'entry': e.name, 'inverse': inverse, 'x': x.reshape(-1).tolist()[:12]},
                                  match={'class': cls, 'symptom': 'row-dependence'})
                         break
+                # the same on ONE instance (what a user does): the batch, then a row alone, then the batch again
+                ts = copy.deepcopy(t)
+                ka, ya, la = R.impl_call(ts, x, c, inverse)
+                kb, yb, lb = R.impl_call(ts, x[1:2], c[1:2] if c is not None else None, inverse)
+                kc, yc, lc = R.impl_call(ts, x, c, inverse)
+                if ka == 'ok' and (kb != 'ok' or kc != 'ok' or not torch.allclose(yb, ya[1:2], **tol) or not torch.allclose(lb, la[1:2], **tol)
+                                   or not torch.allclose(yc, ya, **tol) or not torch.allclose(lc, la, **tol)):
+                    ctx.fail('on one instance, a row evaluated after its batch (or the batch evaluated again) gives a different result',
+                             {'entry': e.name, 'inverse': inverse, 'x': x.reshape(-1).tolist()[:12]}, match={'class': cls, 'symptom': 'row-dependence-same-instance'})
                 perm = torch.randperm(B, generator=gen)
                 kp, yp, lp = R.impl_call(copy.deepcopy(t), x[perm], c[perm] if c is not None else None, inverse)
                 if kp != 'ok' or not torch.allclose(yp, y[perm], **tol) or not torch.allclose(lp, ld[perm], **tol):
